@@ -600,7 +600,10 @@ impl PathRouter {
                     // TODO: should we warn the user about this?
                     continue;
                 } else {
-                    unreachable!()
+                    // The prefix is a valid path on its own, but it can't be extended with a
+                    // catch-all parameter—e.g. it ends with `{id}_suffix`.
+                    push_invalid_fallback_path_diagnostic(db, path_prefix, *id, diagnostics);
+                    continue;
                 }
             }
 
@@ -1059,6 +1062,28 @@ fn push_matchit_diagnostic(
     diagnostics.push(
         CompilerDiagnostic::builder(error)
             .optional_source(source)
+            .build(),
+    );
+}
+
+fn push_invalid_fallback_path_diagnostic(
+    db: &AuxiliaryData,
+    path_prefix: &str,
+    fallback_id: UserComponentId,
+    diagnostics: &crate::diagnostic::DiagnosticSink,
+) {
+    let error = anyhow!(
+        "The fallback of a nested blueprint handles every request whose path starts with the prefix of that blueprint.\n\
+        I can't do that for the prefix `{path_prefix}`: a catch-all can't follow a path parameter within the same path segment."
+    );
+    let source = diagnostics.annotated(
+        db.registration_target(&fallback_id),
+        "The fallback was registered here",
+    );
+    diagnostics.push(
+        CompilerDiagnostic::builder(error)
+            .optional_source(source)
+            .help("End the prefix with a `/`-delimited segment that is either static or a single path parameter.".into())
             .build(),
     );
 }
